@@ -123,11 +123,10 @@ pub fn check_c10(ad: &Adapter, inst: &RefInstance, s: &Schedule, sn: &Snap, ctx:
             push("C10.empty_dummy", format!("{} is empty", d));
         }
         // (what a dummy tour may contain is not part of the property statement: not checked)
-        for w in nodes.windows(2) {
-            if !reach(ad, inst, w[0], w[1]) {
-                push("C10.dummy_not_connectable", format!("{}: {} cannot reach {}", d, nw.node(w[0]).id(), nw.node(w[1]).id()));
-            }
-        }
+        // Whether the nodes of a dummy tour are pairwise connectable is NOT checked: the statement
+        // speaks of vehicle tours (depot to depot), and Tour::new_dummy legitimately drops the
+        // maintenance slots of a removed path, which can leave two service trips that were only
+        // connected through the slot (found as a false alarm of an earlier version of this check).
         if !s.is_dummy(*d) || s.is_vehicle(*d) || !d.is_dummy() {
             push("C10.dummy_listing", format!("{} listed as dummy but is_dummy/is_vehicle disagree", d));
         }
